@@ -162,6 +162,16 @@ Theorem C06_empty_refused : forall cfg s, translate s = Ok [] -> prepare cfg s =
 Proof. exact prepare_empty_refused. Qed.
 Print Assumptions C06_empty_refused.
 
+(* `addchain gen -type T -out F` run once per script into the same file F (file system: a file holds exactly
+   the bytes of the last successful write): F ends up holding the output for the last accepted script -- to
+   which C06_full applies -- or what it held before when none was accepted; the exit statuses say which
+   scripts were accepted *)
+Theorem C06_out_file : forall cfg name srcs file,
+  snd (gen_out_history cfg (TType name) file srcs) = last_accepted cfg name srcs file /\
+  fst (gen_out_history cfg (TType name) file srcs) = map (fun s => match gen cfg name s with Ok _ => 0%N | _ => 1%N end) srcs.
+Proof. exact gen_out_history_last. Qed.
+Print Assumptions C06_out_file.
+
 (* ---- non-vacuity ---- *)
 (* an accepted script with a doubling, a dead statement, an alias, a shift, `<< 0`, an index operand *)
 Definition ex_ok : list N := $"_10 = 2*1
